@@ -44,6 +44,30 @@ func init() { register("ages", &family{gen: genAges, exec: execAges}) }
 type ageWorld struct {
 	// present item j (numbered over the whole schedule); good: an honest item; again: it was presented before
 	present func(j int, good, again bool) (accepted bool, err error)
+	// C16 only (retain): byte strings handed to the library or received from it are remembered with what they held, and
+	// compared at the end of every phase - however many operations later
+	retain bool
+	kept   [][2][]byte
+}
+
+func (w *ageWorld) keep(bs ...[]byte) {
+	if !w.retain || len(w.kept) > 400000 {
+		return
+	}
+	for _, b := range bs {
+		if len(b) > 0 {
+			w.kept = append(w.kept, [2][]byte{b, append([]byte{}, b...)})
+		}
+	}
+}
+
+func (w *ageWorld) checkKept() error {
+	for i, k := range w.kept {
+		if !bytes.Equal(k[0], k[1]) {
+			return fmt.Errorf("byte string %d of %d handed to / received from the library earlier has changed since (%d bytes)", i, len(w.kept), len(k[0]))
+		}
+	}
+	return nil
 }
 
 // splitmix64: a cheap PRF for items that are regenerated rather than stored
@@ -67,7 +91,7 @@ func prfBytes(seed int64, sid, j, n int) []byte {
 func execAges(c *ctx, in ev) []ev {
 	kind, sid, n := gS(in, "kind"), gI(in, "sid"), gI(in, "n")
 	var w *ageWorld
-	if p := guard(func() { w = newAgeWorld(c, kind, sid, n) }); p != "" {
+	if p := guard(func() { w = newAgeWorld(c, kind, sid, n, gBool(in, "retain")) }); p != "" {
 		return []ev{{"op": "Phase", "kind": kind, "sid": sid, "ph": "honest", "i": 1, "n": n, "done": 0, "first_bad": 0, "item": 1, "ans": "diverged", "err": "", "panic": "setup: " + p}}
 	}
 	type itemPhase struct {
@@ -125,6 +149,10 @@ func execAges(c *ctx, in ev) []ev {
 			if e["panic"] != "" && e["ans"] == "" {
 				e["ans"] = "diverged"
 			}
+			if err := w.checkKept(); err != nil && e["ans"] != "diverged" {
+				e["ans"], e["err"] = "diverged", err.Error()
+				w.kept = nil
+			}
 		}
 		out = append(out, e)
 	}
@@ -141,9 +169,10 @@ func genAges(c *ctx, emit func(ev)) {
 		panic(err)
 	}
 	var beh []struct {
-		Kind  string   `json:"kind"`
-		Sched []string `json:"sched"`
-		N     int      `json:"n"`
+		Kind   string   `json:"kind"`
+		Sched  []string `json:"sched"`
+		N      int      `json:"n"`
+		Retain bool     `json:"retain"`
 	}
 	if err := json.Unmarshal(data, &beh); err != nil {
 		panic(err)
@@ -153,7 +182,7 @@ func genAges(c *ctx, emit func(ev)) {
 		for _, x := range b.Sched {
 			s = append(s, x)
 		}
-		emit(ev{"op": "Sched", "kind": b.Kind, "sid": i, "sched": s, "n": b.N})
+		emit(ev{"op": "Sched", "kind": b.Kind, "sid": i, "sched": s, "n": b.N, "retain": b.Retain})
 	}
 }
 
@@ -161,9 +190,11 @@ func ageScalar(c *ctx, sid, j int, what string) []byte {
 	return p384Scalar(c.seed, fmt.Sprintf("ages-%s-%d-%d", what, sid, j))
 }
 
-func newAgeWorld(c *ctx, kind string, sid, n int) *ageWorld {
-	w := &ageWorld{}
-	hb := func(j int, what string, k int) []byte { return hashBytes(c.seed, fmt.Sprintf("ages-%s-%d-%d", what, sid, j), k) }
+func newAgeWorld(c *ctx, kind string, sid, n int, retain bool) *ageWorld {
+	w := &ageWorld{retain: retain}
+	hb := func(j int, what string, k int) []byte {
+		return hashBytes(c.seed, fmt.Sprintf("ages-%s-%d-%d", what, sid, j), k)
+	}
 	switch {
 	case kind == "t1verify" || kind == "t5verify":
 		// ONE issuer verifying tokens; the tokens are made by the reference (FullEvaluate), not by the library
@@ -194,6 +225,7 @@ func newAgeWorld(c *ctx, kind string, sid, n int) *ageWorld {
 					tok.Context = flipBit(tok.Context, j/3)
 				}
 			}
+			w.keep(tok.Nonce, tok.Context, tok.KeyID, tok.Authenticator)
 			return verify(tok) == nil, nil
 		}
 	case kind == "attester":
@@ -221,7 +253,9 @@ func newAgeWorld(c *ctx, kind string, sid, n int) *ageWorld {
 				reqs[j] = enc
 			}
 			reg := new(type3.RateLimitedTokenRequest)
-			if !reg.Unmarshal(append([]byte{}, enc...)) {
+			passed := append([]byte{}, enc...)
+			w.keep(passed)
+			if !reg.Unmarshal(passed) {
 				return false, fmt.Errorf("harness: request does not decode")
 			}
 			anon := []byte(fmt.Sprintf("anon-%d-%d", sid, j))
@@ -236,6 +270,7 @@ func newAgeWorld(c *ctx, kind string, sid, n int) *ageWorld {
 			if err != nil {
 				return false, nil
 			}
+			w.keep(idx)
 			if want, _ := refIndex(secret, ik); !bytes.Equal(idx, want) {
 				return true, fmt.Errorf("the anonymous issuer origin ID is not the reference's")
 			}
@@ -248,8 +283,6 @@ func newAgeWorld(c *ctx, kind string, sid, n int) *ageWorld {
 		t3 := newT3World(rsaKey(0), c.seed, map[string]string{})
 		secret := p384Scalar(c.seed, fmt.Sprintf("ages-client-%d", sid))
 		client := type3.NewRateLimitedClientFromSecret(secret)
-		type kept struct{ passed, want []byte }
-		held := map[int]kept{}
 		w.present = func(j int, good, again bool) (bool, error) {
 			name := fmt.Sprintf("o-%d-%d.example", sid, j)
 			ik := ageScalar(c, sid, j, "ik")
@@ -259,9 +292,6 @@ func newAgeWorld(c *ctx, kind string, sid, n int) *ageWorld {
 				sk, _ := rawKey(elliptic.P384(), ik)
 				t3.issuer.AddOriginWithIndexKey(name, sk)
 			}
-			if h, ok := held[j]; ok && !bytes.Equal(h.passed, h.want) {
-				return true, fmt.Errorf("the buffer handed to Evaluate when the item was first presented has changed since")
-			}
 			blind := ageScalar(c, sid, 2*j+map[bool]int{false: 0, true: 1}[again], "blind")
 			st, err := client.CreateTokenRequest(hb(j, "chal", 9), hb(j, "nonce", 32), blind, t3.issuer.TokenKeyID(), t3.issuer.TokenKey(), name, t3.issuer.NameKey())
 			if err != nil {
@@ -269,10 +299,9 @@ func newAgeWorld(c *ctx, kind string, sid, n int) *ageWorld {
 			}
 			enc := append([]byte{}, st.Request().Marshal()...)
 			passed := append([]byte{}, enc...)
+			w.keep(passed)
 			resp, brk, err := t3.issuer.Evaluate(passed)
-			if !again {
-				held[j] = kept{passed, enc}
-			}
+			w.keep(resp, brk)
 			if err != nil {
 				return false, nil
 			}
@@ -319,11 +348,13 @@ func newAgeWorld(c *ctx, kind string, sid, n int) *ageWorld {
 			if !good {
 				return true, nil
 			}
+			w.keep(resp)
 			toks, err := st.FinalizeTokens(resp)
 			if err != nil || len(toks) != len(nonces) {
 				return false, nil
 			}
 			for _, tok := range toks {
+				w.keep(tok.Nonce, tok.Authenticator, tok.KeyID)
 				if !bytes.Equal(fullEvaluate(oprf.SuiteRistretto255, key, authInput(tok)), tok.Authenticator) {
 					return true, fmt.Errorf("token does not verify")
 				}
@@ -530,7 +561,9 @@ func newAgeWorld(c *ctx, kind string, sid, n int) *ageWorld {
 			}
 			if good {
 				reqs, fins = append(reqs, st.Request()), append(fins, st.FinalizeToken)
-				oks = append(oks, func(t tokens.Token) bool { return bytesEq(fullEvaluate(oprf.SuiteP384, k1, authInput(t)), t.Authenticator) })
+				oks = append(oks, func(t tokens.Token) bool {
+					return bytesEq(fullEvaluate(oprf.SuiteP384, k1, authInput(t)), t.Authenticator)
+				})
 				if j%16 == 5 {
 					st2, err := cl2.CreateTokenRequest(hb(j, "chal2", 10), hb(j, "nonce2", 32), iss2.TokenKeyID(), iss2.TokenKey())
 					if err != nil {
@@ -558,6 +591,7 @@ func newAgeWorld(c *ctx, kind string, sid, n int) *ageWorld {
 			if err != nil {
 				return false, nil
 			}
+			w.keep(resp)
 			rs, err := batched.UnmarshalBatchedTokenResponses(append([]byte{}, resp...))
 			if err != nil || len(rs) != len(reqs) {
 				return false, fmt.Errorf("the batch response does not decode into %d entries: %v", len(reqs), err)
@@ -617,6 +651,7 @@ func newAgeWorld(c *ctx, kind string, sid, n int) *ageWorld {
 				issuers[j] = h
 			}
 			enc, err := h.enc()
+			w.keep(enc, h.id())
 			if err != nil || !bytes.Equal(enc, h.ref) {
 				return false, fmt.Errorf("the issuer's public key encoding is not the reference's (%v)", err)
 			}
@@ -756,7 +791,7 @@ func newAgeWorld(c *ctx, kind string, sid, n int) *ageWorld {
 			if !ecdsa.VerifyASN1(&sk.PublicKey, digest, buf[:len(der)]) {
 				return false, nil
 			}
-			if !bytes.Equal(buf[:len(der)], der) || !bytes.Equal(buf[len(der):], bytes.Repeat([]byte{0xa5}, 16)) {
+			if w.retain && (!bytes.Equal(buf[:len(der)], der) || !bytes.Equal(buf[len(der):], bytes.Repeat([]byte{0xa5}, 16))) {
 				return true, fmt.Errorf("VerifyASN1 changed the caller's signature buffer (curve %s)", curve.Params().Name)
 			}
 			return true, nil
